@@ -715,12 +715,35 @@ func msBucket(n int) string {
 // (rKey), so "/a" and "a" are ONE Redis key (known finding D10 of C03); as long as only one spelling occurs
 // the client must behave like any other storage.
 func slashKeys(prog []POp) []POp {
-	f := func(k string) string {
+	return mapKeys(prog, func(k string) string {
 		if len(k) > 1 && k[0] == 'k' {
 			return "/k/" + k[1:]
 		}
 		return "/" + k
-	}
+	})
+}
+
+// pathKeys rewrites the keys of a program to spellings that differ only in what a path cleaner would remove
+// (a trailing slash, a doubled slash, "." and ".." segments): as strings they are different keys, so they are
+// different records.
+func pathKeys(prog []POp) []POp {
+	spell := []string{"j/7", "j/7/", "j//7", "j/./7", "x/../j/7", "j/7//", "./j/7", "j/7/."}
+	seen := map[string]string{}
+	return mapKeys(prog, func(k string) string {
+		if v, ok := seen[k]; ok {
+			return v
+		}
+		n := len(seen)
+		v := spell[n%len(spell)]
+		if n >= len(spell) {
+			v += fmt.Sprintf("/%d/", n/len(spell))
+		}
+		seen[k] = v
+		return v
+	})
+}
+
+func mapKeys(prog []POp, f func(string) string) []POp {
 	res := make([]POp, len(prog))
 	for i, p := range prog {
 		if p.Key != "" {
@@ -918,6 +941,9 @@ func main() {
 		if slash {
 			prog = slashKeys(prog)
 			s.Count("keys:leading-slash:" + kind + ":" + be)
+		} else if kr.Chance(1, 4) {
+			prog = pathKeys(prog)
+			s.Count("keys:path-like-aliases:" + kind + ":" + be)
 		} else {
 			s.Count("keys:plain:" + kind + ":" + be)
 		}
@@ -1094,7 +1120,7 @@ func main() {
 		"creators: rounds of N=2..8 goroutines Create one absent key (a new key per round); casrace: rounds of N=2..8 goroutines CasByVersion against the one version the set-up created "+
 		"(sometimes with a concurrent Delete); putmany: rounds of N=2..5 goroutines PutMany overlapping keys and read them back; "+
 		"burst: 1..3 goroutines write one record 3000..8000 times back to back (Put / CasByVersion chain with the version just returned / PutMany+Get; 300..600 on Redis): all returned versions pairwise different, every earlier version loses a CasByVersion with ErrConflict (only the set-up of a burst case goes to Coq). "+
-		"A third of the cases (half of the Redis races) spell their keys with a leading slash (/a, /b, /k/7), never mixed with plain keys inside one history. Every history is linearised by an untrusted search and the witness is verified in Coq by Lin.valid_lin against spec/KV.v "+
+		"A third of the cases (half of the Redis races) spell their keys with a leading slash (/a, /b, /k/7), never mixed with plain keys inside one history; a sixth spells them as paths that differ only in what a path cleaner removes (j/7, j/7/, j//7, j/./7, x/../j/7: different keys). Every history is linearised by an untrusted search and the witness is verified in Coq by Lin.valid_lin against spec/KV.v "+
 		"(a Redis PutMany with an expiring record enters the history as one write per record). "+
 		"distinct = by content hash of program and recorded history; non-trivial = at least 4 operations, or a burst", false)
 }
